@@ -226,8 +226,55 @@ def decHandler : Handler Unit where
     | "builtin" :: _ => (s, ["obs checked"])     -- built-in components: direct oracles only (`viol` lines of the harness)
     | _ => (s, ["obs bad-op"])
 
+/-! ### load: several instances through the real collector configuration loading -/
+
+def parsePairs (s : String) : List (String × String) :=
+  if s == "-" then [] else (s.splitOn ",").filterMap fun t =>
+    match t.splitOn ":" with
+    | [k, v] => some (k, v)
+    | _ => none
+
+structure LS where
+  entries : List (CId × List (String × String)) := []
+  defs : List (String × Obj) := []
+  secrets : List String := []      -- hex of the secrets written so far in this case
+  fails : List String := []
+
+def showObj (o : Obj) : String :=
+  let items := sortStrs (o.map (fun p => p.1 ++ ":" ++ p.2))
+  if items.isEmpty then "-" else ",".intercalate items
+
+def loadHandler : Handler LS where
+  init := {}
+  onOp := fun s toks =>
+    match toks with
+    | "inst" :: rest =>
+      match kv rest "id", kv rest "def", kv rest "w" with
+      | some id, some d, some w =>
+        let marker := hex redactionMarker
+        let wr := parsePairs w
+        let secs := wr.filterMap (fun p => if p.2.startsWith "!" then some (p.2.drop 1).toString else none)
+        let wr' := wr.map (fun p => if p.2.startsWith "!" then (p.1, marker) else p)
+        let s := { s with entries := s.entries ++ [((id, ""), wr')], defs := (id, parsePairs d) :: s.defs, secrets := secs ++ s.secrets }
+        let st := loadAll (fun t => (s.defs.lookup t).getD []) s.entries
+        match st.result (id, "") with
+        | some o => (s, ["obs eff " ++ showObj o])
+        | none => (s, ["obs bad-op"])
+      | _, _, _ => (s, ["obs bad-op"])
+    | _ => (s, ["obs bad-op"])
+  onObs := fun s toks =>
+    match toks with
+    | ["obs", "eff", l] =>
+      -- "with secrets redacted": no leaf of the effective configuration is a written secret
+      let leaves := parsePairs l
+      match leaves.find? (fun p => s.secrets.contains p.2) with
+      | some p => { s with fails := s!"sig=C13/effective/secret-in-effective-config path={(unhex p.1).getD p.1}" :: s.fails }
+      | none => s
+    | _ => s
+  onEnd := fun s => if s.fails.isEmpty then ["prop redacted=ok"] else s.fails.reverse.map (fun f => "prop redacted=FAIL " ++ f)
+
 end OtelVerif.Drivers.C13
 
 def main : IO UInt32 :=
   runMulti [("c13-walk", run OtelVerif.Drivers.C13.walkHandler), ("c13-refs", run OtelVerif.Drivers.C13.refsHandler),
-            ("c13-dec", run OtelVerif.Drivers.C13.decHandler)]
+            ("c13-dec", run OtelVerif.Drivers.C13.decHandler), ("c13-load", run OtelVerif.Drivers.C13.loadHandler)]
